@@ -27,6 +27,8 @@ type c03Params struct {
 	Desc    string      `json:"desc"`
 	// SetupMarks: bodies with id%5==0 mark failure on the handle captured in setup (which is nobody's iteration)
 	SetupMarks bool `json:"setup_marks,omitempty"`
+	// FailEvery > 0: bodies whose id is a multiple of it fail
+	FailEvery int `json:"fail_every,omitempty"`
 }
 
 func c03FileYAML(n uint64, c int, limitStage int, r interface{ IntN(int) int }) string {
@@ -127,7 +129,10 @@ func init() {
 					p.Spec.Combine = pick(r, 0, 0, 1, 3)
 				}
 				p.SetupMarks = r.IntN(4) == 0
-				p.Desc = fmt.Sprintf("mode=%s N=%d c=%d %s body=%s combine=%d setupMarks=%v", mode, N, c, tickClass, p.Body, p.Spec.Combine, p.SetupMarks)
+				if !p.SetupMarks {
+					p.FailEvery = pick(r, 0, 0, 1, 2, 3)
+				}
+				p.Desc = fmt.Sprintf("mode=%s N=%d c=%d %s body=%s combine=%d setupMarks=%v failEvery=%d", mode, N, c, tickClass, p.Body, p.Spec.Combine, p.SetupMarks, p.FailEvery)
 				cse := core.MkCase("C03", "run", i, seed, p)
 				cse.Race = true
 				cse.Procs = pick(r, 1, 2, 4, 16)
@@ -196,6 +201,10 @@ func c03Run(c *core.Case, o *core.Outcome) {
 			if p.SetupMarks && engine.IDOf(t)%5 == 0 {
 				setupT.Fail()
 			}
+			if p.FailEvery > 0 && engine.IDOf(t)%uint64(p.FailEvery) == 0 {
+				// failed iterations count towards the limit like any other
+				defer t.Fail()
+			}
 			if p.Body == "sleep1ms" {
 				time.Sleep(time.Millisecond)
 				return
@@ -245,6 +254,10 @@ func c03Run(c *core.Case, o *core.Outcome) {
 		return
 	}
 	su, fa, _ := resultCounts(r)
+	if p.FailEvery > 0 && fa != uint64(S)/uint64(p.FailEvery) {
+		o.Violate("fail-count:"+p.Desc, "bodies with id %% %d == 0 failed: %d of %d; the result reports %d failed (%s)", p.FailEvery, uint64(S)/uint64(p.FailEvery), S, fa, p.Desc)
+		return
+	}
 	if p.SetupMarks && fa != 0 {
 		o.Violate("setup-marks:"+p.Desc, "no body marked its own iteration failed (some marked the handle captured in setup), the result reports %d failed of %d (%s)", fa, S, p.Desc)
 		return
